@@ -40,7 +40,7 @@ def funds_rule(eng, p, v, denom, amount, dom, save_pos, PROP=PROP):
     trs = transfers(p)
     restr = any(d == denom for d in restricted_denoms(before))
     unres = any(d == denom for d in unrestricted_denoms(before))
-    eng.ob(restr != unres, PROP, 'funds-flag', v, '%s: the marker type of the escrowed denomination %s is not decided on this path' % (v, K(denom)), detail=p.describe(14))
+    eng.ob(restr != unres, PROP, 'funds-flag', v, '%s: the marker type of the escrowed denomination %s is not decided on this path' % (v, K(denom)), where=p, detail=p.describe(14))
     if unres:
         hit = None
         for f, _, _ in p.facts:
@@ -48,20 +48,20 @@ def funds_rule(eng, p, v, denom, amount, dom, save_pos, PROP=PROP):
                 a, b = f[1][1], f[1][2]
                 other = b if a == FUNDS else (a if b == FUNDS else None)
                 if other is not None and other[0] == 'coins' and other[2] == denom and dom.eq(other[1], amount): hit = f
-        eng.ob(hit is not None, PROP, 'funds-exact', v + ':attached', '%s: order recorded on a path that does not establish attached funds == exactly one coin of %s %s' % (v, dom.show(amount), K(denom)), detail=p.describe(20),
+        eng.ob(hit is not None, PROP, 'funds-exact', v + ':attached', '%s: order recorded on a path that does not establish attached funds == exactly one coin of %s %s' % (v, dom.show(amount), K(denom)), where=p, detail=p.describe(20),
                sample={'rule': 'funds-exact', 'request': v, 'amount': dom.show(amount), 'denom': K(denom)})
         eng.ob(not trs, PROP, 'funds-exact', v + ':no-message', '%s: a message is emitted although the denomination is not a restricted marker' % v)
     elif restr:
-        eng.ob(p.holds(ISEMPTY(FUNDS), True) is not None, PROP, 'funds-exact', v + ':none-attached', '%s: restricted marker: order recorded without establishing that no funds are attached' % v, detail=p.describe(14))
+        eng.ob(p.holds(ISEMPTY(FUNDS), True) is not None, PROP, 'funds-exact', v + ':none-attached', '%s: restricted marker: order recorded without establishing that no funds are attached' % v, where=p, detail=p.describe(14))
         ok = len(trs) == 1 and not trs[0].get('bad') and trs[0]['mech'] == 'marker' and trs[0]['denom'] == denom and dom.eq(trs[0]['amount'], amount) \
             and trs[0]['from'] == SENDER and trs[0]['to'] == SELF
         eng.ob(ok, PROP, 'funds-exact', v + ':single-pull', '%s: restricted marker: expected exactly one pull of %s %s from the sender; got %s' % (
-            v, dom.show(amount), K(denom), [(t.get('mech'), K(t.get('denom')) if t.get('denom') else None, dom.show(t['amount']) if t.get('amount') else None) for t in trs]), detail=p.describe(14))
+            v, dom.show(amount), K(denom), [(t.get('mech'), K(t.get('denom')) if t.get('denom') else None, dom.show(t['amount']) if t.get('amount') else None) for t in trs]), where=p, detail=p.describe(14))
 
 def common_guards(eng, p, v, guards, save_pos):
     for name, f in guards:
         pos = p.pos(f)
-        eng.ob(pos is not None and pos < save_pos, PROP, 'guard', '%s:%s' % (v, name), '%s: an order is recorded on a path that does not establish %s: %s' % (v, name, fact_key(f)), detail=p.describe(20),
+        eng.ob(pos is not None and pos < save_pos, PROP, 'guard', '%s:%s' % (v, name), '%s: an order is recorded on a path that does not establish %s: %s' % (v, name, fact_key(f)), where=p, detail=p.describe(20),
                sample={'rule': 'guard', 'request': v, 'condition': name})
 
 def run(eng, tier):
@@ -78,14 +78,14 @@ def run(eng, tier):
         w = saves[0]; sp = w['fpos']; dom = Dom(p)
         base_is_contract = p.holds(EQ(F(CFG, 'base_denom'), M(v, 'base')), True) is not None
         base_conv = p.holds(CONTAINS(F(CFG, 'convertible_base_denoms'), M(v, 'base')), True) is not None
-        eng.ob(base_is_contract or base_conv, PROP, 'guard', v + ':base-traded', 'CreateAsk: recorded without establishing the base is the contract base or a convertible base', detail=p.describe(20))
+        eng.ob(base_is_contract or base_conv, PROP, 'guard', v + ':base-traded', 'CreateAsk: recorded without establishing the base is the contract base or a convertible base', where=p, detail=p.describe(20))
         g = [('quote-supported', ('val', CONTAINS(F(CFG, 'supported_quote_denoms'), M(v, 'quote')), True)),
              ('size-lot-multiple', ('val', EQ(I(0), REM(M(v, 'size'), F(CFG, 'size_increment'))), True)),
              ('size>=1', ('val', LT(M(v, 'size'), I(1)), False)),
              ('id-unused', ('is', ('mayload_opt', 'ask', M(v, 'id'), 0), 'None'))] + price_guards('price', v) + [('id-canonical', f) for f in canonical_id_facts(M(v, 'id'))]
         common_guards(eng, p, v, g, sp)
         ok, why = attrs_ok(p, 'ask_required_attributes')
-        eng.ob(ok, PROP, 'guard', v + ':required-attributes', 'CreateAsk: recorded without the required-attribute test on the sender (%s)' % why, detail=p.describe(20))
+        eng.ob(ok, PROP, 'guard', v + ':required-attributes', 'CreateAsk: recorded without the required-attribute test on the sender (%s)' % why, where=p, detail=p.describe(20))
         funds_rule(eng, p, v, M(v, 'base'), M(v, 'size'), dom, sp)
         cls = ('adt', 'ask_order::AskOrderClass', 'Basic', ()) if base_is_contract else ('adt', 'ask_order::AskOrderClass', 'Convertible', (('status', ('adt', 'ask_order::AskOrderStatus', 'PendingIssuerApproval', ())),))
         if not base_is_contract:
@@ -115,23 +115,23 @@ def run(eng, tier):
              ('id-unused', ('is', ('mayload_opt', 'bid', M(v, 'id'), 0), 'None'))] + price_guards('price', v) + [('id-canonical', f) for f in canonical_id_facts(M(v, 'id'))]
         common_guards(eng, p, v, g, sp)
         ok, why = attrs_ok(p, 'bid_required_attributes')
-        eng.ob(ok, PROP, 'guard', v + ':required-attributes', 'CreateBid: recorded without the required-attribute test on the sender (%s)' % why, detail=p.describe(20))
+        eng.ob(ok, PROP, 'guard', v + ':required-attributes', 'CreateBid: recorded without the required-attribute test on the sender (%s)' % why, where=p, detail=p.describe(20))
         # fee rule
         bfi = p.variant_of(F(CFG, 'bid_fee_info'))
         rate = DEC(F(SOMEV(F(CFG, 'bid_fee_info')), 'rate')) if bfi == 'Some' else I(0)
-        eng.ob(bfi in ('Some', 'None'), PROP, 'guard', v + ':fee-rate-source', 'CreateBid: the fee rate is not taken from the configured bid fee (or 0 when none)', detail=p.describe(20))
+        eng.ob(bfi in ('Some', 'None'), PROP, 'guard', v + ':fee-rate-source', 'CreateBid: the fee rate is not taken from the configured bid fee (or 0 when none)', where=p, detail=p.describe(20))
         calc = ROUND0(MUL(rate, total))
         fee = M(v, 'fee'); fv = p.variant_of(fee)
         amount = total
         if fv == 'Some':
             okf = any(f[0] == 'val' and f[2] is True and f[1][0] == 'eq' and ((f[1][1] == F(SOMEV(fee), 'amount') and fee_eq(dom, f[1][2], calc)) or (f[1][2] == F(SOMEV(fee), 'amount') and fee_eq(dom, f[1][1], calc))) for f, _, _ in p.facts)
-            eng.ob(okf, PROP, 'guard', v + ':fee-amount', 'CreateBid: a fee-carrying bid is recorded without establishing fee.amount == round-half-away(rate x price x size)', detail=p.describe(24),
+            eng.ob(okf, PROP, 'guard', v + ':fee-amount', 'CreateBid: a fee-carrying bid is recorded without establishing fee.amount == round-half-away(rate x price x size)', where=p, detail=p.describe(24),
                    sample={'rule': 'guard', 'condition': 'fee-amount', 'formula': K(calc)})
-            eng.ob(p.holds(EQ(F(SOMEV(fee), 'denom'), M(v, 'quote')), True) is not None, PROP, 'guard', v + ':fee-denom', 'CreateBid: fee denomination not required to equal the quote denomination', detail=p.describe(20))
+            eng.ob(p.holds(EQ(F(SOMEV(fee), 'denom'), M(v, 'quote')), True) is not None, PROP, 'guard', v + ':fee-denom', 'CreateBid: fee denomination not required to equal the quote denomination', where=p, detail=p.describe(20))
             amount = ADD(total, F(SOMEV(fee), 'amount'))
         elif fv == 'None':
             okf = any(f[0] == 'val' and f[2] is True and f[1][0] == 'eq' and ((f[1][1] == I(0) and fee_eq(dom, f[1][2], calc)) or (f[1][2] == I(0) and fee_eq(dom, f[1][1], calc))) for f, _, _ in p.facts)
-            eng.ob(okf, PROP, 'guard', v + ':fee-absent-only-if-zero', 'CreateBid: a bid without a fee is recorded without establishing that the fee at the configured rate is 0', detail=p.describe(24))
+            eng.ob(okf, PROP, 'guard', v + ':fee-absent-only-if-zero', 'CreateBid: a bid without a fee is recorded without establishing that the fee at the configured rate is 0', where=p, detail=p.describe(24))
         else:
             eng.fail(PROP, 'guard', v + ':fee-presence', 'CreateBid: fee presence not decided on the path')
         funds_rule(eng, p, v, M(v, 'quote'), amount, dom, sp)
